@@ -88,7 +88,7 @@ Qed.
 (* what the files collected at one level satisfy *)
 Definition exp_added (v : version) (c : compaction) (lvl : nat) (fk lk : key) (t : file) : Prop :=
   In t (nth lvl v []) /\ key_leb fk (first_key t) = true /\ key_leb (last_key t) lk = true /\
-  exp_closed v c lvl t = true.
+  exp_closed v c lvl t = true /\ is_input c t = false.
 
 Lemma exp_level_spec o v c lvl fk lk : forall ssts to_add ta,
   (forall t, In t ssts -> In t (nth lvl v [])) ->
@@ -102,7 +102,7 @@ Proof.
     destruct (key_leb fk (first_key s) && key_leb (last_key s) lk && negb (is_input c s) && exp_closed v c lvl s) eqn:E.
     + eapply IH; [exact Hr| |exact H]. intros t Ht. apply in_app_or in Ht. destruct Ht as [Ht|[<-|[]]]; [auto|].
       apply andb_prop in E. destruct E as [E E4]. apply andb_prop in E. destruct E as [E E3]. apply andb_prop in E. destruct E as [E1 E2].
-      repeat split; auto. apply Hs. now left.
+      apply negb_true_iff in E3. repeat split; auto. apply Hs. now left.
     + eapply IH; eauto.
 Qed.
 
@@ -137,7 +137,7 @@ Proof.
     apply orb_prop in Ix. destruct Ix as [Ix|Ix].
     + exact (CL j m x g Hj Hjm Hm Hx Hg Ix Ig1).
     + apply existsb_exists in Ix. destruct Ix as [t [Ht E]]. apply N.eqb_eq in E.
-      destruct (HA t Ht) as (Ht1 & _ & _ & Ht4).
+      destruct (HA t Ht) as (Ht1 & _ & _ & Ht4 & _).
       assert (x = t) by (eapply uniq_same_file; eauto). subst x.
       assert (j = lvl) by (eapply uniq_same_level; eauto). subst j.
       destruct (exp_closed_spec v c lvl t m g Ht4 Hjm Hm Hg) as [E1|[E1|[E1|[E1|E1]]]].
